@@ -310,7 +310,10 @@ namespace link_layer {
     template < class BufferedRadio, class ReceiveCallbacks, std::size_t MTUSize >
     void ll_l2cap_sdu_buffer< BufferedRadio, ReceiveCallbacks, MTUSize >::free_ll_l2cap_received()
     {
-        if (receive_buffer_used_)
+        // only a completely reassembled SDU is handed out of receive_buffer_; while a reassembly is
+        // still in progress, next_ll_l2cap_received() hands out PDUs of the radio (LL control PDUs,
+        // unfragmented SDUs), which have to be freed there, without touching the reassembly.
+        if ( receive_buffer_used_ != 0 && receive_size_ == 0 )
         {
             receive_buffer_used_ = 0;
             receive_size_ = 0;
